@@ -186,7 +186,9 @@ CLAIMS = {
         text="Numbers are modelled as IEEE binary64 BIT PATTERNS with exact natural-number arithmetic (no Float): all functions reduce in "
              "the kernel. Kernel-checked for all arguments: substring selects exactly the characters whose position lies in the rounded "
              "window (IEEE comparisons, so NaN/infinities/out-of-range are covered) and is a subsequence of its argument, translate, "
-             "starts-with, contains, substring-before/after specifications, string-length counts characters, special values of round/"
+             "starts-with, contains, substring-before/after specifications, normalize-space (keeps exactly the non-white-space characters in "
+             "order; every white-space character of the result is one U+0020 between two non-white-space characters; idempotent), "
+             "string-length counts characters, special values of round/"
              "floor/ceiling/string(), integral arguments unchanged, number() is NaN outside the XPath lexical form. Tie: complete arity "
              "table 0..5, full products over a pool of 23 strings x 23 numbers x booleans for unary/binary functions, arithmetic and "
              "comparisons, substring triples, the Recommendation's examples; numbers compared by bit pattern.",
